@@ -79,6 +79,7 @@ class QCase:
     self.log = []          # tokens dispatched, in order
     self.script = ()
     self.script_done = False
+    self.scrib = False
     self.fresh = 0
     self.recalled = []     # (returned token or None) for handler-side recalls
     self.made = {}
@@ -93,6 +94,8 @@ class QCase:
         qc.log.append(e.signal_name)
         if not qc.script_done:
           qc.script_done = True
+          if qc.scrib:
+            chart.scribble("note")
           for a in qc.script:
             if a == 0:
               chart.post_fifo(qc.new_event("H"))
